@@ -351,6 +351,7 @@ func runC11(w *W) {
 	// fixed inputs: the site statements, then the scripts / expression shapes / WINDOW definitions of fuzzspace2.go
 	// (ExplainStatements treats a simple SELECT after an INSERT specially; arrays, tuples and signed literals have printers of their own)
 	fixed := append([]string(nil), siteStatements...)
+	fixed = append(fixed, stratifiedCorpus(stmts, 2, 3000)...) // every statement kind of the corpus
 	{
 		cnt := 0
 		step := w.pickN(2, 1)
